@@ -242,7 +242,7 @@ namespace verif
         {
             u32 n = 0;
             for (u32 i = 0; i < nblk; ++i)
-                n += blk[i].owner == owner;
+                n += blk[i].owner == owner && blk[i].pad != 1; // pad == 1: pinned region (e.g. static storage)
             return n;
         }
         void retag(u32 from, u32 to)
